@@ -103,7 +103,7 @@ def run(cmd, cwd=None, env=None, inp=None, timeout=None):
     return p.returncode, p.stdout
 
 
-def run_lines(cmd, lines, cwd=None, env=None, jobs=None, timeout=3600):
+def run_lines(cmd, lines, cwd=None, env=None, jobs=None, timeout=3600, prefix=None):
     """Feed `lines` to `cmd` (one result line per input line), in parallel chunks. Returns list of
     output lines; a chunk whose process dies yields 'CRASH' for the lines it did not answer."""
     if not lines:
@@ -113,7 +113,7 @@ def run_lines(cmd, lines, cwd=None, env=None, jobs=None, timeout=3600):
     chunks = [(i * n // jobs, (i + 1) * n // jobs) for i in range(jobs)]
     procs = []
     for a, b in chunks:
-        data = ("\n".join(lines[a:b]) + "\n").encode()
+        data = ("\n".join((prefix or []) + lines[a:b]) + "\n").encode()
         p = subprocess.Popen(cmd, cwd=cwd, env=env, stdin=subprocess.PIPE, stdout=subprocess.PIPE,
                              stderr=subprocess.PIPE)
         procs.append((p, data, a, b))
@@ -129,6 +129,7 @@ def run_lines(cmd, lines, cwd=None, env=None, jobs=None, timeout=3600):
         res = so.decode(errors="replace").split("\n")
         if res and res[-1] == "":
             res.pop()
+        res = res[len(prefix or []):]
         for i in range(a, b):
             k = i - a
             out[i] = res[k] if k < len(res) else "CRASH"
@@ -291,10 +292,11 @@ class Check:
         self.finish()
 
     # ---------------------------------------------------------------- tie (T2)
-    def tie(self, name, lines, impl_cmd, model_cmd, canon=None, jobs=None, nontrivial=None, cwd=None, env=None):
-        """Run both sides on `lines`; returns list of (line, impl_out, model_out)."""
-        impl = run_lines(impl_cmd, lines, jobs=jobs, cwd=cwd, env=env)
-        model = run_lines(model_cmd, lines, jobs=jobs)
+    def tie(self, name, lines, impl_cmd, model_cmd, canon=None, jobs=None, nontrivial=None, cwd=None, env=None, prefix=None):
+        """Run both sides on `lines`; returns list of (line, impl_out, model_out). `prefix` lines (state set-up,
+        e.g. descriptors) are sent first to every process and their answers dropped."""
+        impl = run_lines(impl_cmd, lines, jobs=jobs, cwd=cwd, env=env, prefix=prefix)
+        model = run_lines(model_cmd, lines, jobs=jobs, prefix=prefix)
         res = []
         for l, a, b in zip(lines, impl, model):
             self.evaluations += 1
